@@ -1,6 +1,227 @@
-"""Sanitizer legs (Miri, TSan, libFuzzer/ASan, valgrind) of bin/check. Each returns
-{'leg', 'executions', 'violations': [...], 'inconclusive': reason|None, ...counters}."""
+"""Sanitizer legs of bin/check (thorough tier): Miri, ThreadSanitizer, AddressSanitizer builds of the harness, libFuzzer.
+Each returns {'leg', 'executions', 'violations': [...], 'inconclusive': reason|None, ...counters}. A sanitizer report is a
+violation; a build failure or a timeout of the leg itself is inconclusive (never a violation)."""
+import os
+import re
+import subprocess
+import time
+from concurrent.futures import ThreadPoolExecutor
+
+VERIF = os.path.dirname(os.path.dirname(os.path.abspath(__file__)))
+WORK = os.path.join(VERIF, 'work')
+HARNESS = os.path.join(VERIF, 'harness')
+TARGET = 'x86_64-unknown-linux-gnu'
+
+
+def _env(**kw):
+    e = dict(os.environ, CARGO_NET_OFFLINE='true')
+    e.update(kw)
+    return e
+
+
+def _run(cmd, env, timeout, cwd=HARNESS):
+    t0 = time.time()
+    try:
+        p = subprocess.run(cmd, cwd=cwd, env=env, stdout=subprocess.PIPE, stderr=subprocess.STDOUT, timeout=timeout)
+        return p.returncode, p.stdout.decode('utf-8', 'replace'), time.time() - t0
+    except subprocess.TimeoutExpired as e:
+        return None, (e.stdout or b'').decode('utf-8', 'replace'), time.time() - t0
+
+
+# ---------------------------------------------------------------------------------------------- Miri
+
+def miri(pid, tier, seed, scale, wdir):
+    """cargo +nightly miri run on `tvh miri <ID> <seed> <ops>`: reduced deterministic workloads, several processes with
+    different workload seeds and Miri scheduler seeds."""
+    res = {'leg': 'miri', 'executions': 0, 'violations': [], 'inconclusive': None, 'processes': 0, 'miri_seeds': []}
+    tdir = os.path.join(WORK, 'target-miri')
+    ops = {'C01': 8, 'C07': 16, 'C14': 12, 'C17': 24, 'C18': 12}.get(pid, 10)
+    ops = max(2, int(ops * scale))
+    nproc = 12 if pid != 'C18' else 16
+    base = ['cargo', '+nightly', 'miri', 'run', '--offline', '--']
+    flags = '-Zmiri-disable-isolation'
+    # build once (and smoke-run one operation) so that the parallel runs only interpret
+    rc, out, dt = _run(base + ['miri', pid, str(seed), '1'], _env(CARGO_TARGET_DIR=tdir, MIRIFLAGS=flags), 1800)
+    res['build_and_smoke_s'] = round(dt, 1)
+    if rc is None:
+        res['inconclusive'] = 'miri build/smoke run timed out'
+        return res
+    if rc != 0 and 'MIRI-SUITE' not in out and not re.search(r'Undefined Behavior|Data race|error: unsupported', out):
+        res['inconclusive'] = 'miri build failed: ' + out[-600:]
+        return res
+
+    def one(i):
+        mflags = flags + ' -Zmiri-seed=%d' % (seed * 100 + i)
+        if pid == 'C18':
+            mflags += ' -Zmiri-preemption-rate=%s' % ['0.01', '0.05', '0.1', '0.2'][i % 4]
+        return i, _run(base + ['miri', pid, str(seed * 1000 + i), str(ops)], _env(CARGO_TARGET_DIR=tdir, MIRIFLAGS=mflags), 3600)
+
+    with ThreadPoolExecutor(nproc) as ex:
+        for i, (rc, out, dt) in ex.map(one, range(nproc)):
+            res['processes'] += 1
+            res['miri_seeds'].append(seed * 100 + i)
+            m = re.search(r'MIRI-SUITE \S+ seed=\d+ operations=(\d+)', out)
+            if m:
+                res['executions'] += int(m.group(1))
+            if rc is None:
+                res['inconclusive'] = 'a miri process timed out'
+            elif rc != 0:
+                kind = 'data-race' if 'Data race' in out else ('undefined-behaviour' if 'Undefined Behavior' in out else ('assertion' if 'panicked' in out else 'error'))
+                first = re.search(r'(error: .*|thread .* panicked.*)', out)
+                frame = re.search(r'--> (/repo/\S+)', out)
+                res['violations'].append({
+                    'signature': '%s/miri/%s/%s' % (pid, kind, (frame.group(1).split('/repo/')[-1] if frame else 'unknown')),
+                    'message': 'Miri reported %s while interpreting `tvh miri %s %d %d` (miri seed %d): %s' % (kind, pid, seed * 1000 + i, ops, seed * 100 + i, (first.group(1) if first else out[-400:])[:500]),
+                    'replay': {'command': 'cd /verif/harness && MIRIFLAGS="%s -Zmiri-seed=%d" cargo +nightly miri run --offline -- miri %s %d %d' % (flags, seed * 100 + i, pid, seed * 1000 + i, ops), 'output_tail': out[-1500:]},
+                })
+    if res['executions'] == 0 and not res['violations']:
+        res['inconclusive'] = res['inconclusive'] or 'miri executed nothing'
+    return res
+
+
+# ---------------------------------------------------------------------------------------------- TSan / ASan builds of the harness
+
+def _sanitizer_build(kind):
+    tdir = os.path.join(WORK, 'target-' + kind)
+    flags = {'tsan': '-Zsanitizer=thread', 'asan': '-Zsanitizer=address -Cforce-frame-pointers=yes'}[kind]
+    cmd = ['cargo', '+nightly', 'build', '--release', '--offline', '--target', TARGET]
+    if kind == 'tsan':
+        cmd += ['-Zbuild-std']
+    rc, out, dt = _run(cmd, _env(CARGO_TARGET_DIR=tdir, RUSTFLAGS=flags), 3600)
+    return rc, out, dt, os.path.join(tdir, TARGET, 'release', 'tvh')
+
+
+def _sanitizer_run(kind, pid, tier, seed, scale, wdir, shards, shard_scale, extra_env):
+    res = {'leg': kind, 'executions': 0, 'violations': [], 'inconclusive': None, 'reports': 0}
+    rc, out, dt, binp = _sanitizer_build(kind)
+    res['build_s'] = round(dt, 1)
+    if rc != 0 or not os.path.exists(binp):
+        res['inconclusive'] = '%s build failed: %s' % (kind, out[-600:])
+        return res
+    logbase = os.path.join(wdir, kind + '-log')
+    for f in os.listdir(wdir):
+        if f.startswith(kind + '-'):
+            os.remove(os.path.join(wdir, f))
+
+    def one(i):
+        outp = os.path.join(wdir, '%s-shard-%d.json' % (kind, i))
+        env = _env(**extra_env)
+        opt = 'TSAN_OPTIONS' if kind == 'tsan' else 'ASAN_OPTIONS'
+        env[opt] = env.get(opt, '') + ':log_path=%s.%d' % (logbase, i)
+        cmd = [binp, 'run', pid, '--tier', 'quick', '--seed', str(seed + 7), '--scale', str(shard_scale), '--shard', str(i), '--nshards', str(shards), '--out', outp,
+               '--mem-mb', '65536000', '--case-budget-ms', '600000']
+        return i, _run(cmd, env, 3 * 3600, cwd=VERIF), outp
+
+    import json
+    with ThreadPoolExecutor(shards) as ex:
+        for i, (rc, out, dt), outp in ex.map(one, range(shards)):
+            try:
+                rep = json.load(open(outp))
+                res['executions'] += rep['evaluations']
+                # behavioural violations under the sanitizer build count too
+                for v in rep['violations'][:3]:
+                    res['violations'].append({'signature': v['signature'], 'message': '[under %s] %s' % (kind, v['message']), 'case': v['case'], 'replay': v['replay']})
+            except Exception:
+                if rc is None:
+                    res['inconclusive'] = '%s shard timed out' % kind
+                elif rc not in (0, 66, 1):
+                    res['inconclusive'] = '%s shard %d exited with %s: %s' % (kind, i, rc, out[-300:])
+    # count and de-duplicate report blocks by their first in-repo frame
+    seen = {}
+    for f in sorted(os.listdir(wdir)):
+        if not f.startswith(kind + '-log'):
+            continue
+        txt = open(os.path.join(wdir, f), errors='replace').read()
+        for block in re.split(r'(?=WARNING: ThreadSanitizer|ERROR: AddressSanitizer)', txt):
+            if 'Sanitizer' not in block[:60]:
+                continue
+            res['reports'] += 1
+            head = block.splitlines()[0][:160]
+            frame = re.search(r'(/repo/\S+?:\d+)', block)
+            key = (re.sub(r'\(pid=\d+\)', '', head), frame.group(1) if frame else 'unknown')
+            seen.setdefault(key, block[:2500])
+    for (head, frame), block in list(seen.items())[:5]:
+        res['violations'].append({
+            'signature': '%s/%s/%s' % (pid, kind, frame.split('/repo/')[-1]),
+            'message': '%s report: %s (first in-repo frame %s)' % (kind, head, frame),
+            'replay': {'report': block},
+        })
+    return res
+
+
+def tsan(pid, tier, seed, scale, wdir):
+    return _sanitizer_run('tsan', pid, tier, seed, scale, wdir, shards=4, shard_scale=max(0.05, 0.3 * scale),
+                          extra_env={'TSAN_OPTIONS': 'halt_on_error=0:report_signal_unsafe=0'})
+
+
+def asan(pid, tier, seed, scale, wdir):
+    return _sanitizer_run('asan', pid, tier, seed, scale, wdir, shards=8, shard_scale=max(0.05, 0.5 * scale),
+                          extra_env={'ASAN_OPTIONS': 'detect_leaks=0:abort_on_error=0:halt_on_error=1:detect_stack_use_after_return=0'})
+
+
+# ---------------------------------------------------------------------------------------------- libFuzzer
+
+def fuzz(pid, tier, seed, scale, wdir):
+    """cargo-fuzz (libFuzzer + ASan) on /verif/fuzz targets; crashes/timeouts are violations with the artifact as replay."""
+    res = {'leg': 'fuzz-asan', 'executions': 0, 'violations': [], 'inconclusive': None}
+    fdir = os.path.join(VERIF, 'fuzz')
+    target = {'C06': 'add_and_render_str', 'C07': 'add_then_render'}.get(pid)
+    if not target or not os.path.isdir(fdir):
+        res['inconclusive'] = 'no fuzz target for %s' % pid
+        return res
+    tdir = os.path.join(WORK, 'target-fuzz')
+    corpus = os.path.join(WORK, 'fuzz-corpus', target)
+    arts = os.path.join(WORK, 'fuzz-artifacts', target)
+    os.makedirs(corpus, exist_ok=True)
+    os.makedirs(arts, exist_ok=True)
+    # seed corpus: the repository's own snapshot inputs
+    if not os.listdir(corpus):
+        n = 0
+        for root, _, files in os.walk('/repo/tera/src/snapshot_tests'):
+            for f in files:
+                if f.endswith('.txt') and n < 600:
+                    try:
+                        open(os.path.join(corpus, 'seed-%d' % n), 'wb').write(open(os.path.join(root, f), 'rb').read())
+                        n += 1
+                    except Exception:
+                        pass
+    secs = int(max(30, 240 * scale))
+    env = _env(CARGO_TARGET_DIR=tdir)
+    env.pop('CARGO_NET_OFFLINE', None)  # cargo fuzz rejects --offline; the config file keeps it offline
+    env['CARGO_NET_OFFLINE'] = 'true'
+    rc, out, dt = _run(['cargo', '+nightly', 'fuzz', 'build', target], env, 3600, cwd=os.path.join(VERIF, 'fuzz-crate'))
+    res['build_s'] = round(dt, 1)
+    if rc != 0:
+        res['inconclusive'] = 'cargo fuzz build failed: ' + out[-600:]
+        return res
+    cmd = ['cargo', '+nightly', 'fuzz', 'run', target, corpus, '--', '-max_total_time=%d' % secs, '-timeout=10', '-fork=16', '-seed=%d' % seed,
+           '-max_len=65536', '-dict=' + os.path.join(VERIF, 'fuzz-crate', 'tera.dict'), '-artifact_prefix=' + arts + '/', '-ignore_ooms=1', '-rss_limit_mb=4096']
+    rc, out, dt = _run(cmd, env, secs + 600, cwd=os.path.join(VERIF, 'fuzz-crate'))
+    res['run_s'] = round(dt, 1)
+    m = re.findall(r'#(\d+): cov: (\d+)', out)
+    if m:
+        res['executions'] = int(m[-1][0])
+        res['coverage_edges'] = int(m[-1][1])
+    found = [f for f in os.listdir(arts) if f.startswith(('crash-', 'timeout-', 'oom-'))]
+    for f in sorted(found)[:5]:
+        if f.startswith('oom-'):
+            continue
+        data = open(os.path.join(arts, f), 'rb').read()
+        res['violations'].append({
+            'signature': '%s/fuzz/%s' % (pid, f.split('-')[0]),
+            'message': 'libFuzzer %s on target %s: input %r' % (f.split('-')[0], target, data[:300]),
+            'replay': {'artifact': os.path.join(arts, f), 'command': 'cd /verif/fuzz-crate && cargo +nightly fuzz run %s %s' % (target, os.path.join(arts, f))},
+        })
+    if res['executions'] == 0 and not res['violations']:
+        res['inconclusive'] = 'libFuzzer executed nothing: ' + out[-400:]
+    return res
+
+
+LEGS = {'miri': miri, 'tsan': tsan, 'asan': asan, 'fuzz': fuzz}
 
 
 def run_leg(leg, pid, tier, seed, scale, wdir):
-    return {'leg': leg, 'inconclusive': 'leg not implemented'}
+    try:
+        return LEGS[leg](pid, tier, seed, scale, wdir)
+    except Exception as e:  # a leg that cannot run is inconclusive, never a violation
+        return {'leg': leg, 'inconclusive': 'leg failed to run: %r' % (e,), 'violations': []}
